@@ -286,6 +286,8 @@ theorem handlePrePrepare_ev (w : W) (ppm : PPMsg) : Evolves J w.n (handlePrePrep
     unfold validatePreprepare at hval'
     simp only [Bool.and_eq_true, Option.isNone_iff_eq_none, beq_iff_eq] at hval'
     obtain ⟨⟨⟨hnone, ht⟩, hok⟩, hl⟩ := hval'
+    split
+    · exact .refl _
     dsimp only
     obtain ⟨a1, a2, a3, _⟩ := askValidate_n w ppm.c.header.height ppm.c.header.view ppm.block ppm.c.header.hash
     generalize askValidate w ppm.c.header.height ppm.c.header.view ppm.block ppm.c.header.hash = r at a1 a2 a3 ⊢
